@@ -773,6 +773,6 @@ func checkGauges(s *XScript, tel *componenttest.Telemetry, id component.ID, held
 
 func TestExporterBalance(t *testing.T) {
 	cX.ReplayRepeat = 30
-	vt.Run(t, cX, vt.N(700, 20000), genX, runX)
+	vt.Run(t, cX, vt.N(2500, 60000), genX, runX)
 }
 
